@@ -20,6 +20,8 @@ def texpr(t, f=None):
     k = t['k']
     if k == 'prim':
         out = {'k': 'prim', 'p': t['p']}
+        if 'dflt' in t:
+            out['default'] = leaf_native(t['p'], t['dflt'])      # the type declares a default value
     elif k == 'obj':
         out = {'k': 'obj', 'name': t['name'], 'ns': t['ns'], 'fields': [[x['n'], texpr(x['t'], x)] for x in t['fields']],
                'base': texpr(t['base']) if t.get('hasbase') else None}
@@ -127,7 +129,8 @@ def to_instance(gen, t, v, texp=None):
         return [to_instance(gen, t, x) for x in v[1]]
     if k == 'prim':
         x = leaf_native(t['p'], v[1])
-        return [x] if t['p'] == 'ByteArray' else x
+        # (a ByteArray value is a sequence of chunks whose concatenation is the value: hand it over in two uneven chunks)
+        return ([x[:1], x[1:]] if len(x) >= 2 else [x]) if t['p'] == 'ByteArray' else x
     if k == 'attr':
         return leaf_native(t['of']['p'], v[1])
     if k == 'arr':
